@@ -411,6 +411,14 @@ Proof.
   rewrite Z.eqb_refl. cbn [andb]. apply IH.
 Qed.
 
+Lemma run13_coros k : forall a s n w rest,
+  run13 (bst s n true w []) (coros w a k ++ rest) = run13 (bst s n true w []) rest.
+Proof.
+  unfold coros. induction k as [|k IH]; intros a s n w rest; [reflexivity|].
+  cbn [seq map app run13]. unfold step13 at 1. cbn [bst b_exp b_inframe b_fw].
+  rewrite Z.eqb_refl. cbn [andb]. apply IH.
+Qed.
+
 Lemma pokes13 ps : forall s s1 lp n fw rest,
   do_pokes ps s = (s1, lp) ->
   run13 (bst s n true fw []) (lp ++ rest) = run13 (bst s1 n true fw []) rest.
@@ -450,7 +458,8 @@ Qed.
 
 (* the model's after_action against the checker's act13: [e] is the entry that
    announces the scripted action a, (s2, l2, r2) what performing it gives *)
-Lemma act_after fuel a e s1 w dt pos np s2 l2 r2 s' l r :
+Lemma act_after fuel a e s1 w rest0 s2 l2 r2 s' l r :
+  (forall s n tail, run13 (bst s n true w []) (rest0 ++ tail) = run13 (bst s n true w []) tail) ->
   step13 (bst s1 fuel true w []) e = act13 (bst s1 fuel true w []) a ->
   match a with
   | ADirect h cc cn => a_enter (a_react_n fuel) h cc cn None s1
@@ -458,11 +467,11 @@ Lemma act_after fuel a e s1 w dt pos np s2 l2 r2 s' l r :
   end = Some (s2, l2, r2) ->
   (r2 = RNorm -> is_direct a = true) ->
   inv s2 -> tag_ok r2 s2 -> from_switch r2 (e :: l2) (s_curh s2) -> nok13 l = true ->
-  after_action fuel (Some (s2, e :: l2, r2)) (procs w dt (S pos) (np - S pos)) = Some (s', l, r) ->
+  after_action fuel (Some (s2, e :: l2, r2)) rest0 = Some (s', l, r) ->
   exists fr', (r <> FCont -> fr' = false) /\
     forall rest, run13 (bst s1 fuel true w []) (l ++ rest) = run13 (bst s' fuel fr' w []) rest.
 Proof.
-  intros St Hs Hn I2 T2 Tg N. unfold after_action.
+  intros Hrest St Hs Hn I2 T2 Tg N. unfold after_action.
   assert (Step : forall st fr ann rest,
             act13 (bst s1 fuel true w []) a = Some (bst st fuel fr w ann) ->
             run13 (bst s1 fuel true w []) ((e :: ann) ++ rest) = run13 (bst st fuel fr w []) rest).
@@ -470,9 +479,8 @@ Proof.
   destruct r2 as [|[| |h cc cn tag]].
   - st_inv. exists true. split; [congruence|]. intros rest.
     rewrite <- app_assoc. cbn [app].
-    change (e :: l2 ++ procs w dt (S pos) (np - S pos) ++ rest)
-      with ((e :: l2) ++ procs w dt (S pos) (np - S pos) ++ rest).
-    rewrite (Step s2 true l2); [apply run13_procs|].
+    change (e :: l2 ++ rest0 ++ rest) with ((e :: l2) ++ rest0 ++ rest).
+    rewrite (Step s2 true l2); [apply Hrest|].
     unfold act13. cbn [bst b_st b_fuel]. rewrite Hs.
     specialize (Hn eq_refl). destruct a; try discriminate. reflexivity.
   - st_inv. exists false. split; [reflexivity|]. intros rest.
@@ -508,9 +516,9 @@ Proof.
     apply some_triple_eq in AA as (_&<-&_). apply nok13_app in N. apply N.
 Qed.
 
-Lemma frame13 fuel nps last f s s' l r fr fw :
+Lemma frame13 fuel nps ncs last f s s' l r fr fw :
   inv s -> cur_ok s -> frame_origin_ok f = true ->
-  run_frame fuel nps last f s = Some (s', l, r) -> nok13 l = true ->
+  run_frame fuel nps ncs last f s = Some (s', l, r) -> nok13 l = true ->
   exists fr' fw', (r <> FCont -> fr' = false) /\
     forall rest, run13 (bst s fuel fr fw []) (l ++ rest) = run13 (bst s' fuel fr' fw' []) rest.
 Proof.
@@ -520,9 +528,15 @@ Proof.
   specialize (C1 eq_refl). cbn in Fw, Fh.
   set (dt := match last with None => 0 | Some l0 => f_t f - l0 end).
   set (np := np_of nps (s_curh s)).
-  set (pos := eff_pos (f_org f) (f_pos f) np).
+  set (nc := np_of ncs (s_curh s)).
+  set (pb := procs_upto (f_org f) (f_pos f) np).
+  set (cb := coros_upto (f_org f) (f_pos f) nc).
   set (w := s_curw s).
-  set (head := EClock (f_t f) w (s_curh s) :: procs w dt 0 (S pos)).
+  set (head := EClock (f_t f) w (s_curh s) :: procs w dt 0 pb ++ coros w 0 cb).
+  set (rest0 := procs w dt pb (np - pb) ++ coros w cb (nc - cb)).
+  assert (Hrest : forall s0 n tail,
+            run13 (bst s0 n true w []) (rest0 ++ tail) = run13 (bst s0 n true w []) tail).
+  { intros s0 n tail. unfold rest0. rewrite <- app_assoc, run13_procs. apply run13_coros. }
   assert (Head : forall tail rest,
     run13 (bst s fuel fr fw []) ((head ++ lp ++ tail) ++ rest)
     = run13 (bst s1 fuel true w []) (tail ++ rest)).
@@ -530,7 +544,7 @@ Proof.
     cbn [bst b_exp b_st]. unfold w. rewrite !Z.eqb_refl. cbn [andb].
     change {| b_st := set_inh false s; b_fuel := b_fuel (bst s fuel fr fw []); b_inframe := true;
               b_fw := s_curw s; b_exp := [] |} with (bst (set_inh false s) fuel true (s_curw s) []).
-    rewrite <- !app_assoc. rewrite run13_procs. apply (pokes13 _ _ _ _ _ _ _ P). }
+    rewrite <- !app_assoc. rewrite run13_procs, run13_coros. apply (pokes13 _ _ _ _ _ _ _ P). }
   (* the entry announcing a scripted action makes the checker compute act13 *)
   assert (St : forall a, step13 (bst s1 fuel true w []) (EAct (f_org f) a (s_curw s1) (s_curh s1))
                          = act13 (bst s1 fuel true w []) a).
@@ -545,21 +559,20 @@ Proof.
     (r2 = RNorm -> is_direct a = true) ->
     inv s2 -> tag_ok r2 s2 ->
     from_switch r2 (EAct (f_org f) a (s_curw s1) (s_curh s1) :: l2) (s_curh s2) ->
-    prefix (head ++ lp) (after_action fuel x (procs w dt (S pos) (np - S pos))) = Some (s', l, r) ->
+    prefix (head ++ lp) (after_action fuel x rest0) = Some (s', l, r) ->
     nok13 l = true ->
     exists fr' fw', (r <> FCont -> fr' = false) /\
       forall rest, run13 (bst s fuel fr fw []) (l ++ rest) = run13 (bst s' fuel fr' fw' []) rest).
   { intros x a s2 l2 r2 -> Hs Hn I2 T2 Tg. unfold prefix.
     destruct (after_action fuel _ _) as [[[s3 l3] r3]|] eqn:AA; [|discriminate].
     st_inv. intros N. apply nok13_app in N as [_ N].
-    destruct (act_after fuel a _ s1 w dt pos np s2 l2 r2 s3 l3 r3 (St a) Hs Hn I2 T2 Tg N AA)
+    destruct (act_after fuel a _ s1 w rest0 s2 l2 r2 s3 l3 r3 Hrest (St a) Hs Hn I2 T2 Tg N AA)
       as (fr'&Hfr&Run).
     exists fr', w. split; [exact Hfr|]. intros rest.
     rewrite <- (app_assoc head lp l3). rewrite Head. apply Run. }
   assert (Other : f_act f <> ANormal -> is_direct (f_act f) = false ->
     prefix (head ++ lp)
-      (after_action fuel (perform (react_n fuel) (f_org f) (f_act f) s1)
-                    (procs w dt (S pos) (np - S pos))) = Some (s', l, r) ->
+      (after_action fuel (perform (react_n fuel) (f_org f) (f_act f) s1) rest0) = Some (s', l, r) ->
     nok13 l = true ->
     exists fr' fw', (r <> FCont -> fr' = false) /\
       forall rest, run13 (bst s fuel fr fw []) (l ++ rest) = run13 (bst s' fuel fr' fw' []) rest).
@@ -585,7 +598,7 @@ Proof.
     try (apply Other; [discriminate|reflexivity]).
   - (* nothing *)
     st_inv. intros _. exists true, w. split; [congruence|]. intros rest.
-    rewrite Head. apply run13_procs.
+    rewrite Head. apply Hrest.
   - (* a direct switch inside the frame *)
     intros E N.
     destruct (direct fuel (f_org f) hd ccd cnd s1) as [[[s2 l2] r2]|] eqn:D; [|discriminate].
@@ -603,8 +616,8 @@ Proof.
       exact Tg.
 Qed.
 
-Lemma run_frame_inv fuel nps last f s s' l r :
-  inv s -> cur_ok s -> run_frame fuel nps last f s = Some (s', l, r) -> nok10 l = true ->
+Lemma run_frame_inv fuel nps ncs last f s s' l r :
+  inv s -> cur_ok s -> run_frame fuel nps ncs last f s = Some (s', l, r) -> nok10 l = true ->
   inv s' /\ cur_ok s'.
 Proof.
   intros I C. unfold run_frame. cbv zeta.
@@ -639,9 +652,9 @@ Proof.
     exact (Fin _ _ _ _ _ _ eq_refl I2 C2 E).
 Qed.
 
-Lemma frames13 fuel nps ek fs : forall last s s' l r fr fw,
+Lemma frames13 fuel nps ncs ek fs : forall last s s' l r fr fw,
   inv s -> cur_ok s -> forallb frame_origin_ok fs = true ->
-  run_frames fuel nps last fs ek s = Some (s', l, r) -> nok13 l = true ->
+  run_frames fuel nps ncs last fs ek s = Some (s', l, r) -> nok13 l = true ->
   inv s' /\ cur_ok s' /\ exists fw',
   forall rest, run13 (bst s fuel fr fw []) (l ++ rest) = run13 (bst s' fuel false fw' []) rest.
 Proof.
@@ -649,36 +662,36 @@ Proof.
   - st_inv. intros _. split; [exact I|]. split; [exact C|]. exists fw. intros rest.
     cbn [app run13]. unfold step13. cbn [bst b_exp b_st]. rewrite !Z.eqb_refl. reflexivity.
   - cbn [forallb] in Fo. apply andb_prop in Fo as [Fo1 Fo2].
-    destruct (run_frame fuel nps last f s) as [[[s1 l1] r1]|] eqn:F; [|discriminate].
+    destruct (run_frame fuel nps ncs last f s) as [[[s1 l1] r1]|] eqn:F; [|discriminate].
     assert (Stop : r1 <> FCont -> Some (s1, l1, r1) = Some (s', l, r) -> nok13 l = true ->
               inv s' /\ cur_ok s' /\ exists fw',
               forall rest, run13 (bst s fuel fr fw []) (l ++ rest)
                            = run13 (bst s' fuel false fw' []) rest).
     { intros Hr. st_inv. intros N.
-      destruct (run_frame_inv _ _ _ _ _ _ _ _ I C F (nok13_10 _ N)) as [I1 C1].
-      destruct (frame13 _ _ _ _ _ _ _ _ fr fw I C Fo1 F N) as (fr1&fw1&Hfr&Run1).
+      destruct (run_frame_inv _ _ _ _ _ _ _ _ _ I C F (nok13_10 _ N)) as [I1 C1].
+      destruct (frame13 _ _ _ _ _ _ _ _ _ fr fw I C Fo1 F N) as (fr1&fw1&Hfr&Run1).
       split; [exact I1|]. split; [exact C1|]. exists fw1. intros rest.
       rewrite Run1, (Hfr Hr). reflexivity. }
     destruct r1; try (apply Stop; discriminate).
-    destruct (run_frames fuel nps (Some (f_t f)) fs ek s1) as [[[s2 l2] r2]|] eqn:FS; [|discriminate].
+    destruct (run_frames fuel nps ncs (Some (f_t f)) fs ek s1) as [[[s2 l2] r2]|] eqn:FS; [|discriminate].
     st_inv. intros N. apply nok13_app in N as [N1 N2].
-    destruct (run_frame_inv _ _ _ _ _ _ _ _ I C F (nok13_10 _ N1)) as [I1 C1].
-    destruct (frame13 _ _ _ _ _ _ _ _ fr fw I C Fo1 F N1) as (fr1&fw1&_&Run1).
+    destruct (run_frame_inv _ _ _ _ _ _ _ _ _ I C F (nok13_10 _ N1)) as [I1 C1].
+    destruct (frame13 _ _ _ _ _ _ _ _ _ fr fw I C Fo1 F N1) as (fr1&fw1&_&Run1).
     destruct (IH _ _ _ _ _ fr1 fw1 I1 C1 Fo2 FS N2) as (I2&C2&fw2&Run2).
     split; [exact I2|]. split; [exact C2|]. exists fw2. intros rest.
     rewrite <- app_assoc, Run1. apply Run2.
 Qed.
 
 (* ---- all operations ------------------------------------------------------- *)
-Lemma ops13_ok nps ops : forall last s,
+Lemma ops13_ok nps ncs ops : forall last s,
   inv s -> (cur_ok s \/ first_is_top ops = true) ->
   forallb op_ok ops = true ->
   forallb (fun x => nok13 (snd x)) ops = true ->
-  run_ops nps last ops s = true ->
+  run_ops nps ncs last ops s = true ->
   ops13 s ops = true.
 Proof.
   induction ops as [|[o obs] ops IH]; intros last s I C W K; cbn [run_ops ops13]; auto.
-  destruct (run_op nps last o s) as [[[s1 last1] l]|] eqn:R; [|discriminate].
+  destruct (run_op nps ncs last o s) as [[[s1 last1] l]|] eqn:R; [|discriminate].
   intros H. apply andb_prop in H as [H1 H2].
   apply log_eqb_eq in H1. subst obs.
   cbn [forallb] in W, K. apply andb_prop in W as [W1 W2]. apply andb_prop in K as [N K2].
@@ -708,10 +721,10 @@ Proof.
     apply (IH last (set_inh false s2)); auto.
   - destruct C as [C|C]; [|discriminate].
     unfold run_start in R.
-    destruct (run_frames (Datatypes.S (length rs)) nps last fs ek (set_reacts rs s))
+    destruct (run_frames (Datatypes.S (length rs)) nps ncs last fs ek (set_reacts rs s))
       as [[[s2 l2] r]|] eqn:FS; [|discriminate].
     injection R as <- <- <-. apply nok13_app in N as [N _].
-    destruct (frames13 _ _ _ _ _ (set_reacts rs s) _ _ _ false none I C W1 FS N) as (I2&C2&fw2&Run2).
+    destruct (frames13 _ _ _ _ _ _ (set_reacts rs s) _ _ _ false none I C W1 FS N) as (I2&C2&fw2&Run2).
     unfold op13.
     change {| b_st := set_reacts rs s; b_fuel := Datatypes.S (length rs); b_inframe := false;
               b_fw := none; b_exp := [] |}
@@ -733,7 +746,7 @@ Proof.
   unfold wf_b, known13_b, any_entry, accepts, holds13, holds13_b. intros W K5 A.
   apply andb_prop in W as [W _]. apply andb_prop in W as [W Wf]. apply andb_prop in W as [Wn Wt].
   apply andb_prop in Wn as [_ Wn].
-  apply (ops13_ok (c_nps c) (c_ops c) None init); auto.
+  apply (ops13_ok (c_nps c) (c_ncs c) (c_ops c) None init); auto.
   - apply inv_init.
   - (* no K5 entry anywhere *)
     clear - K5. induction (c_ops c) as [|[o l] ops IH]; cbn in *; auto.
